@@ -482,9 +482,15 @@ void adfFreeDirList ( struct AdfList * const list )
  * adfGetRDirEnt
  *
  */
-struct AdfList * adfGetRDirEnt ( struct AdfVolume * const vol,
-                                 const SECTNUM            nSect,
-                                 const BOOL               recurs )
+/* a listing never needs more entry blocks than the volume has blocks, nor deeper
+   nesting than ADF_MAX_DIR_DEPTH: cyclic hash chains and directory cycles end here */
+#define ADF_MAX_DIR_DEPTH 512
+
+static struct AdfList * adfGetRDirEnt_ ( struct AdfVolume * const vol,
+                                         const SECTNUM            nSect,
+                                         const BOOL               recurs,
+                                         const unsigned           depth,
+                                         unsigned * const         budget )
 {
     struct bEntryBlock entryBlk;
     struct AdfList *cell, *head;
@@ -495,9 +501,10 @@ struct AdfList * adfGetRDirEnt ( struct AdfVolume * const vol,
     struct bEntryBlock parent;
 
 
-    if (adfEnv.useDirCache && isDIRCACHE(vol->dosType))
-        return (adfGetDirEntCache(vol, nSect, recurs ));
-
+    if ( depth > ADF_MAX_DIR_DEPTH ) {
+        *budget = 0;
+        return NULL;
+    }
 
     if (adfReadEntryBlock(vol,nSect,&parent)!=RC_OK)
 		return NULL;
@@ -512,11 +519,15 @@ struct AdfList * adfGetRDirEnt ( struct AdfVolume * const vol,
 				 (*adfEnv.eFct)("adfGetDirEnt : malloc");
                  return NULL;
              }
-             if (adfReadEntryBlock(vol, hashTable[i], &entryBlk)!=RC_OK) {
+             if ( *budget == 0 ||
+                  adfReadEntryBlock(vol, hashTable[i], &entryBlk)!=RC_OK) {
+                 free(entry);
 				 adfFreeDirList(head);
                  return NULL;
              }
+             (*budget)--;
              if (adfEntBlock2Entry(&entryBlk, entry)!=RC_OK) {
+                 free(entry);
 				 adfFreeDirList(head); return NULL;
              }
              entry->sector = hashTable[i];
@@ -529,8 +540,12 @@ struct AdfList * adfGetRDirEnt ( struct AdfVolume * const vol,
                  adfFreeDirList(head); return NULL;
              }
 
-             if (recurs && entry->type==ST_DIR)
-                 cell->subdir = adfGetRDirEnt(vol,entry->sector,recurs);
+             if (recurs && entry->type==ST_DIR) {
+                 cell->subdir = adfGetRDirEnt_(vol,entry->sector,recurs,depth+1,budget);
+                 if ( *budget == 0 ) {
+                     adfFreeDirList(head); return NULL;
+                 }
+             }
 
              /* same hashcode linked list */
              nextSector = entryBlk.nextSameHash;
@@ -541,11 +556,15 @@ struct AdfList * adfGetRDirEnt ( struct AdfVolume * const vol,
 					 (*adfEnv.eFct)("adfGetDirEnt : malloc");
                      return NULL;
                  }
-                 if (adfReadEntryBlock(vol, nextSector, &entryBlk)!=RC_OK) {
+                 if ( *budget == 0 ||
+                      adfReadEntryBlock(vol, nextSector, &entryBlk)!=RC_OK) {
+                     free(entry);
 					 adfFreeDirList(head); return NULL;
                  }
+                 (*budget)--;
 
                  if (adfEntBlock2Entry(&entryBlk, entry)!=RC_OK) {
+                     free(entry);
 					 adfFreeDirList(head);
                      return NULL;
                  }
@@ -556,8 +575,12 @@ struct AdfList * adfGetRDirEnt ( struct AdfVolume * const vol,
                      adfFreeDirList(head); return NULL;
                  }
 				 
-                 if (recurs && entry->type==ST_DIR)
-                     cell->subdir = adfGetRDirEnt(vol,entry->sector,recurs);
+                 if (recurs && entry->type==ST_DIR) {
+                     cell->subdir = adfGetRDirEnt_(vol,entry->sector,recurs,depth+1,budget);
+                     if ( *budget == 0 ) {
+                         adfFreeDirList(head); return NULL;
+                     }
+                 }
 				 
                  nextSector = entryBlk.nextSameHash;
              }
@@ -568,6 +591,18 @@ struct AdfList * adfGetRDirEnt ( struct AdfVolume * const vol,
         adfReadDirCache(vol,parent.extension);
 */
     return head;
+}
+
+
+struct AdfList * adfGetRDirEnt ( struct AdfVolume * const vol,
+                                 const SECTNUM            nSect,
+                                 const BOOL               recurs )
+{
+    if (adfEnv.useDirCache && isDIRCACHE(vol->dosType))
+        return (adfGetDirEntCache(vol, nSect, recurs ));
+
+    unsigned budget = (unsigned) ( vol->lastBlock - vol->firstBlock + 1 );
+    return adfGetRDirEnt_ ( vol, nSect, recurs, 0, &budget );
 }
 
 
@@ -818,7 +853,11 @@ for(i=0; i<HT_SIZE; i++) printf("ht[%d]=%d    ",i,ht[i]);
 
     updSect = 0;
     found = FALSE;
+    /* a chain cannot be longer than the volume has blocks: a cyclic chain ends here */
+    unsigned stepsLeft = (unsigned) ( vol->lastBlock - vol->firstBlock + 1 );
     do {
+        if ( stepsLeft-- == 0 )
+            return -1;
         if (adfReadEntryBlock(vol, nSect, entry)!=RC_OK)
 			return -1;
         if (nameLen==entry->nameLen) {
@@ -924,7 +963,10 @@ SECTNUM adfCreateEntry ( struct AdfVolume * const   vol,
             return( newSect );
     }
 
+    unsigned stepsLeft = (unsigned) ( vol->lastBlock - vol->firstBlock + 1 );
     do {
+        if ( stepsLeft-- == 0 )      /* cyclic chain */
+            return -1;
         if (adfReadEntryBlock(vol, nSect, &updEntry)!=RC_OK)
 			return -1;
         if (updEntry.nameLen==len) {
